@@ -184,7 +184,14 @@ namespace hv
         std::string scalar_text(const Value &v)
         {
             if (!v.has_value()) return "";
-            try { return v.view().to_string(); } catch (...) { return "?"; }
+            try
+            {
+                std::string t = v.view().to_string();
+                // runtime-only scalars (nested graph contexts) print as addresses: never let one reach the log
+                if (t.find("0x") != std::string::npos) return "<opaque>";
+                return t;
+            }
+            catch (...) { return "?"; }
         }
         void dump_builder(const GraphBuilder &gb, std::string &out, int depth)
         {
